@@ -141,7 +141,12 @@ class SyncedDict(SyncedCollection, MutableMapping):
                             self._validate({key: new_value})
                         self._data[key] = self._from_base(new_value, parent=self)
                     else:
-                        if new_value == existing:
+                        # Python equality identifies True, 1 and 1.0, which are
+                        # different JSON values, so only skip values that are
+                        # equal and of the same type. Nested collections are
+                        # never of the same type as the incoming plain data and
+                        # are updated recursively below.
+                        if type(new_value) is type(existing) and new_value == existing:
                             continue
                         if _sc_resolver.get_type(existing) == "SYNCEDCOLLECTION":
                             try:
